@@ -17,8 +17,12 @@ for p in $props; do
   res="$res$p exit=$rc $line; "
 done
 python3 - "$id" "$res" <<'PY'
-import json,sys
-p='/verif/seeded/%s/meta.json'%sys.argv[1]; m=json.load(open(p)); m['check_result']=sys.argv[2].strip(); json.dump(m,open(p,'w'),indent=1)
+import json,sys,re
+p='/verif/seeded/%s/meta.json'%sys.argv[1]; m=json.load(open(p))
+r=m.get('results') or {}
+for part in [x.strip() for x in sys.argv[2].split(';') if x.strip()]:
+    r[part.split()[0]]=part
+m['results']=r; m['check_result']='; '.join(r[k] for k in sorted(r)); json.dump(m,open(p,'w'),indent=1)
 PY
 git -C /repo worktree remove --force $wt; rm -f /tmp/seedrun.$id.log
 tag=$(python3 -c "import hashlib,sys;print(hashlib.sha1(sys.argv[1].encode()).hexdigest()[:8])" $wt); rm -rf /verif/build/bin-$tag /verif/build/gomod-$tag
